@@ -1,7 +1,7 @@
 """Configuration of ./check C01 (see cfg/README)."""
 
 PROP = {'drive': ['Font'],
- 'modules': ['SfntV.Props.C01', 'SfntV.Props.C01Codecs', 'SfntV.Props.C01File', 'SfntV.Props.C01FileEx'],
+ 'modules': ['SfntV.Props.C01', 'SfntV.Props.C01Codecs', 'SfntV.Props.C01File', 'SfntV.Props.C01FileEx', 'SfntV.Props.C01FileCff', 'SfntV.Props.C01FileCffEx'],
  'required_theorems': ['C01_write_accepted',
                        'C01_read_write',
                        'C01_env_irrelevant',
@@ -15,6 +15,9 @@ PROP = {'drive': ['Font'],
                        'C01_file_roundtrip',
                        'C01_file_example_in_domain',
                        'C01_file_example',
+                       'C01_file_roundtrip_cff',
+                       'C01_file_example_cff_in_domain',
+                       'C01_file_example_cff',
                        'C01_head_codec',
                        'C01_os2_codec',
                        'C01_post_codec',
@@ -27,7 +30,21 @@ PROP = {'drive': ['Font'],
          '(all scalar fields + recipes for outlines incl. CID-keyed font dicts and matrices, cmap subtables, GDEF/GSUB/GPOS '
          'shapes), a font.merge line a complete foreign table set (one decoded record per table or "-"); all are '
          'non-trivial (every line exercises every field)',
- 'partial': ['Theorems cover the font-level plumbing only: FontMeta = every scalar field of sfnt.Font (names, '
+ 'partial': ['BYTE LEVEL (Model/FontFile.lean, Model/FontFileCff.lean; Props/C01File*.lean): writeFile / readFile compose '
+             'header.Write/Read (C03), head, hhea+hmtx, maxp, OS/2 (C12), name and post incl. glyph names (C14), cmap '
+             '(C09), glyf/loca (C11) exactly as write.go / read.go do, and C01_file_roundtrip proves readFile (writeFile F) '
+             '= nfFile F for TrueType fonts in InDomainFile = the explicit conjunction of the guards of the composed '
+             'theorems (notably: strings Mac-Roman representable because Write also emits a Macintosh name table; '
+             'REGULAR excludes BOLD/ITALIC; heights >= 0; int16 metrics; <= 4 distinct side tables; file < 4 GiB). NOT '
+             'composed, only stated as guards with abstract decoders: GDEF/GSUB/GPOS (C08: its theorems are per list / '
+             'lookup, not decode(encode x) = x on one Info type) and the CFF table (C13: its FontIn/FontOut take '
+             'charstrings opaque and floats as 9-digit decimals, while widths/extents of the font model need the '
+             'charstring interpreter C05 and exact float->decimal conversion); C01_file_roundtrip_cff is the '
+             'OpenType/CFF flavour with every table around the outlines composed. The ligature GSUB that Read '
+             'synthesises is a token (C15 standardLigatures printed), not a gtab payload. Tied by V font.file: '
+             'byte-exact equality of the model file with the real Font.Write on every generated font of all three '
+             'outline kinds (CFF and layout table bytes taken from the real encoders as oracle).',
+             'Theorems cover the font-level plumbing only: FontMeta = every scalar field of sfnt.Font (names, '
              'licensing strings as code-point lists - any Unicode scalar value incl. astral ones -, width/weight class, '
              'six style flags, code pages, version, both timestamps, permissions, unitsPerEm, five vertical metrics, '
              'italic angle, underline metrics), advance widths, glyph count, and the decisions about FontMatrix, '
